@@ -71,7 +71,7 @@ def run(tier):
     out = os.path.join(wd, "symtab.ndjson")
     r = tlc.run_tlc("SymtabGen", constants={"OutFile": out, "N": 2}, workers=1, timeout=900, heap="6g")
     if not r.ok or not os.path.exists(out):
-        if "ssumption" in r.out:
+        if "ssumption" in r.out and "is false" in r.out:
             vd.observe("model:symbol producer / family laws", {"output": r.out[-3000:]})
         raise common.ToolError("SymtabGen failed\n" + r.out[-2000:])
     vecs = [json.loads(l) for l in open(out) if l.strip()]
